@@ -294,6 +294,7 @@ func (l *lawCtx) splitJoin() {
 		opts = map[string]any{"max": maxArg(r, max)}
 	}
 	want := mSplit(s, sep, max)
+	l.c.Sample("str:split/join law", map[string]any{"s": mon.Q(s), "sep": mon.Q(sep), "max": max, "model_pieces": len(want)})
 	got := l.expectStrs("str:split", "str:split", want, opts, sep, s)
 	if got == nil && want != nil {
 		return
